@@ -141,9 +141,15 @@ Proof. exact perm_in_spec. Qed.
 Print Assumptions C11_permission_test_is_containment.
 
 Theorem C11_normalisation_wraps_exactly_the_non_iterables : forall v,
-  normalise gen_is_nonstr_iter v = match v with PStr _ | PAtom => Wrapped v | _ => Self v end.
+  normalise gen_is_nonstr_iter v = match v with PStr _ | PAtom | PEq _ => Wrapped v | _ => Self v end.
 Proof. exact normalise_spec. Qed.
 Print Assumptions C11_normalisation_wraps_exactly_the_non_iterables.
+
+(* `p in [v]` for an application object v (no str, not iterable) whose __eq__ equals exactly one name: v counts as that name *)
+Theorem C11_eq_object_is_its_name : forall p s,
+  perm_in_with gen_is_nonstr_iter gen_all_contains p (PEq s) = perm_in_with gen_is_nonstr_iter gen_all_contains p (PStr s).
+Proof. exact eq_object_is_its_name. Qed.
+Print Assumptions C11_eq_object_is_its_name.
 
 (* without the normalisation a bare str permission is searched for substrings *)
 Theorem C11_unnormalised_str_is_substring_test : forall p s,
